@@ -1200,7 +1200,8 @@ func (e *c17Env) scanRun(c *runCase, o *runOutcome) {
 					fmt.Fprintf(os.Stderr, "DEBUG %s %s line %q noEcho=%v env=%q simout=%q\n", rel, kind, line, o.noEcho, o.Env, o.SimOut)
 				}
 				switch {
-				case kind == "password" && devSSH[c.Dev] && (!o.noEcho || echoFlavour || c.Fault == "echohang") && !secretOutsideDeviceText(line, o.SimOut, secret, c.user()):
+				case kind == "password" && devSSH[c.Dev] && (!o.noEcho || echoFlavour || c.Fault == "echohang") &&
+					(o.Env != "" && (echoFlavour || c.Fault == "echohang") || !secretOutsideDeviceText(line, o.SimOut, secret, c.user())):
 					if os.Getenv("C17_DEBUG") != "" {
 						fmt.Fprintf(os.Stderr, "DEBUG excused line %q\n", line)
 					}
@@ -1208,7 +1209,8 @@ func (e *c17Env) scanRun(c *runCase, o *runOutcome) {
 					// (hypothesis noEchoAtPasswordPrompt of ssh_echo_device_independent; the model computes it
 					// from the chunks, the simulated device has it by construction in flavour 5 / fault echohang —
 					// chunk boundaries vary under load) — but only where the sink shows text the device wrote;
-					// a password the code itself put next to it is judged
+					// a password the code itself put next to it is judged (a run the environment spoilt may have
+					// lost the record of what the device wrote: then the construction of the device decides)
 					e.res.Count("scan:device-echoes-at-password-prompt(outside guarantee):" + sink)
 					continue
 				case kind == "apikey" && c.Dev == "PAN-OS" && c.Fault == "statuskey" && !strings.HasPrefix(sink, "session"):
